@@ -532,7 +532,7 @@ structure Quirks where
   listPatternRaw : Bool := false
   /-- F15: `returnSearchOptions` forgets SAVE -/
   dropSave : Bool := false
-  /-- F29: `ON` is chosen when the instants are 24 h apart -/
+  /-- F30: `ON` is chosen when the instants are 24 h apart -/
   onByInstant : Bool := false
 deriving DecidableEq, Repr
 
@@ -891,27 +891,31 @@ def pHeaderItem (acc : List Str) : P (List Str) := fun w => do
   let (s, r) ← pAString w
   pure (acc ++ [s], r)
 
+/-- fetch.go readSection: the specifier after the part path (`dot`: a dot was consumed after the last number) -/
+def pSectionSpec (peek : Bool) (part : List Int) (dot : Bool) : P BodySec := fun r0 =>
+  if dot || part = [] then do
+    let (t, r) := span isAtomChar r0
+    if dot && t = [] then Except.error Err.bad else
+    let n := upper t
+    if n = [] then pure (({ part := part, peek := peek } : BodySec), r)
+    else if n = str "HEADER" then pure ({ part := part, peek := peek, spec := .header }, r)
+    else if n = str "MIME" then pure ({ part := part, peek := peek, spec := .mime }, r)
+    else if n = str "TEXT" then pure ({ part := part, peek := peek, spec := .text }, r)
+    else if n = str "HEADER.FIELDS" || n = str "HEADER.FIELDS.NOT" then do
+      let (_, r) ← pSP r
+      let (l, r) ← pList pHeaderItem [] r
+      if n = str "HEADER.FIELDS" then pure ({ part := part, peek := peek, spec := .header, fields := l }, r)
+      else pure ({ part := part, peek := peek, spec := .header, fieldsNot := l }, r)
+    else Except.error Err.bad
+  else Except.ok (({ part := part, peek := peek } : BodySec), r0)
+
 /-- fetch.go readSection (after `[`) -/
 def pSection (peek : Bool) : P BodySec := fun w =>
   match special 93 w with
   | some r => .ok ({ peek := peek }, r)
   | none => do
     let (part, dot, r0) := pSectionPart w.length [] w
-    let (sec, r1) ← (if dot || part = [] then do
-        let (t, r) := span isAtomChar r0
-        if dot && t = [] then Except.error Err.bad else
-        let n := upper t
-        if n = [] then pure (({ part := part, peek := peek } : BodySec), r)
-        else if n = str "HEADER" then pure ({ part := part, peek := peek, spec := .header }, r)
-        else if n = str "MIME" then pure ({ part := part, peek := peek, spec := .mime }, r)
-        else if n = str "TEXT" then pure ({ part := part, peek := peek, spec := .text }, r)
-        else if n = str "HEADER.FIELDS" || n = str "HEADER.FIELDS.NOT" then do
-          let (_, r) ← pSP r
-          let (l, r) ← pList pHeaderItem [] r
-          if n = str "HEADER.FIELDS" then pure ({ part := part, peek := peek, spec := .header, fields := l }, r)
-          else pure ({ part := part, peek := peek, spec := .header, fieldsNot := l }, r)
-        else Except.error Err.bad
-      else Except.ok (({ part := part, peek := peek } : BodySec), r0))
+    let (sec, r1) ← pSectionSpec peek part dot r0
     let (_, r2) ← pSpecial 93 r1
     pure (sec, r2)
 
